@@ -27,6 +27,13 @@ class Boom(Exception):
     pass
 
 
+class Halt(BaseException):
+    """an exception that is not an `Exception` (like KeyboardInterrupt / SystemExit)"""
+
+
+EXC_TYPES = [Boom, KeyboardInterrupt, Halt, Boom]
+
+
 def dump(conn):
     out = {}
     for t in TABLES:
@@ -164,20 +171,20 @@ def _impl(args):
                 def update(self, n=1, force=False):
                     Bomb.n += 1
                     if Bomb.n == k:
-                        raise Boom(f'callback {k}')
+                        raise EXC_TYPES[k % 4](f'callback {k}')
 
                 def flash(self, message):
                     Bomb.n += 1
                     if Bomb.n == k:
-                        raise Boom(f'callback {k}')
+                        raise EXC_TYPES[k % 4](f'callback {k}')
             raised = False
             try:
                 wn.add(files['main'], progress_handler=Bomb)
-            except Boom:
+            except (Boom, KeyboardInterrupt, Halt):
                 raised = True
             except Exception as e:
                 raised = 'other:' + type(e).__name__
-            check_after_fault('callback', k, raised, {'K': K})
+            check_after_fault('callback', k, raised, {'K': K, 'exception': EXC_TYPES[k % 4].__name__})
 
         # (2) one corrupted reference at every position
         for kind, pos in corruptions(sc['main'], rng, 12 if quick else 200):
@@ -262,16 +269,16 @@ def _impl(args):
                 def update(self, n=1, force=False):
                     BombR.n += 1
                     if BombR.n == k:
-                        raise Boom(f'remove callback {k}')
+                        raise EXC_TYPES[k % 4](f'remove callback {k}')
 
                 def flash(self, message):
                     BombR.n += 1
                     if BombR.n == k:
-                        raise Boom(f'remove callback {k}')
+                        raise EXC_TYPES[k % 4](f'remove callback {k}')
             raised = False
             try:
                 wn.remove('p:1', progress_handler=BombR)
-            except Boom:
+            except (Boom, KeyboardInterrupt, Halt):
                 raised = True
             except Exception as e:
                 raised = 'other:' + type(e).__name__
